@@ -315,6 +315,92 @@ impl<'a, 'ast> Visit<'ast> for LockV<'a> {
     }
 }
 
+/// Tree-bin write lock: per function, the `lock_root()` / `unlock_root()` call lines, the calls of
+/// the restructuring helpers, and nothing else (the Relaxed link stores come from the site table).
+pub struct TreeLockFn {
+    pub func: String,
+    pub lock_lines: Vec<usize>,
+    pub unlock_lines: Vec<usize>,
+    /// (helper, line)
+    pub helper_calls: Vec<(String, usize)>,
+}
+
+struct TreeLockV {
+    lock_lines: Vec<usize>,
+    unlock_lines: Vec<usize>,
+    helper_calls: Vec<(String, usize)>,
+}
+
+const TREE_HELPERS: [&str; 4] = ["balance_insertion", "balance_deletion", "rotate_left", "rotate_right"];
+
+impl<'ast> Visit<'ast> for TreeLockV {
+    fn visit_expr_method_call(&mut self, m: &'ast syn::ExprMethodCall) {
+        let name = m.method.to_string();
+        if name == "lock_root" {
+            self.lock_lines.push(line_of(&m.method));
+        } else if name == "unlock_root" {
+            self.unlock_lines.push(line_of(&m.method));
+        } else if TREE_HELPERS.contains(&name.as_str()) {
+            self.helper_calls.push((name, line_of(&m.method)));
+        }
+        visit::visit_expr_method_call(self, m);
+    }
+    fn visit_expr_call(&mut self, c: &'ast syn::ExprCall) {
+        let f = c.func.to_token_stream().to_string().replace(' ', "");
+        let last = f.rsplit("::").next().unwrap_or("").to_string();
+        if TREE_HELPERS.contains(&last.as_str()) {
+            self.helper_calls.push((last, line_of(&c.func)));
+        }
+        visit::visit_expr_call(self, c);
+    }
+}
+
+pub fn scan_tree_lock(file: &syn::File) -> Vec<TreeLockFn> {
+    let mut out = Vec::new();
+    for fr in impl_fns(file) {
+        let mut v = TreeLockV { lock_lines: vec![], unlock_lines: vec![], helper_calls: vec![] };
+        v.visit_block(&fr.f.block);
+        if !v.lock_lines.is_empty() || !v.unlock_lines.is_empty() || !v.helper_calls.is_empty() {
+            out.push(TreeLockFn { func: fr.f.sig.ident.to_string(), lock_lines: v.lock_lines, unlock_lines: v.unlock_lines, helper_calls: v.helper_calls });
+        }
+    }
+    out
+}
+
+pub fn tree_lock_to_coq(fns: &[TreeLockFn], sites: &[Site]) -> String {
+    let mut s = String::from(
+        "\n(* node.rs: per function, the lines of its lock_root() / unlock_root() calls and of its calls of the\n\
+         restructuring helpers; and every Relaxed store site of node.rs (function, line, field) *)\n\
+         Record treelockfn := { tl_fn : string; tl_locks : list N; tl_unlocks : list N; tl_helpers : list (string * N) }.\n\
+         Definition tree_lock_fns_tbl : list treelockfn := [\n",
+    );
+    s.push_str(
+        &fns.iter()
+            .map(|f| {
+                format!(
+                    "  {{| tl_fn := {}; tl_locks := [{}]; tl_unlocks := [{}]; tl_helpers := [{}] |}}",
+                    q(&f.func),
+                    f.lock_lines.iter().map(|l| format!("{}%N", l)).collect::<Vec<_>>().join("; "),
+                    f.unlock_lines.iter().map(|l| format!("{}%N", l)).collect::<Vec<_>>().join("; "),
+                    f.helper_calls.iter().map(|(h, l)| format!("({}, {}%N)", q(h), l)).collect::<Vec<_>>().join("; ")
+                )
+            })
+            .collect::<Vec<_>>()
+            .join(";\n"),
+    );
+    s.push_str("\n].\n\nDefinition relaxed_stores_node_rs : list (string * N * string) := [\n");
+    s.push_str(
+        &sites
+            .iter()
+            .filter(|x| x.file == "node.rs" && x.method == "store" && x.ords.first().map(|o| o == "Relaxed").unwrap_or(false))
+            .map(|x| format!("  ({}, {}%N, {})", q(&x.func), x.mline, q(&x.field)))
+            .collect::<Vec<_>>()
+            .join(";\n"),
+    );
+    s.push_str("\n].\n");
+    s
+}
+
 pub fn scan_locks(file: &syn::File, fname: &str) -> Vec<LockExt> {
     let mut out = Vec::new();
     for fr in impl_fns(file) {
